@@ -33,6 +33,7 @@ class TCPServer:
         self.idle_task = TrioSingleTask()
         self.stream = stream
         self.state = state
+        self._reading = True
 
     def __await__(self) -> Generator[Any, None, None]:
         return self.run().__await__()
@@ -91,7 +92,7 @@ class TCPServer:
             await self._close()
             await self.protocol.handle(Closed())
         elif isinstance(event, Updated):
-            if event.idle:
+            if event.idle and self._reading:
                 await self.idle_task.restart(self._task_group, self._idle_timeout)
             else:
                 await self.idle_task.stop()
@@ -111,6 +112,10 @@ class TCPServer:
                 await self.protocol.handle(RawData(data))
                 if data == b"":
                     break
+        # Nothing more can be read, the keep alive timer has no
+        # further purpose (and would delay the completion of run).
+        self._reading = False
+        await self.idle_task.stop()
         await self.protocol.handle(Closed())
 
     async def _close(self) -> None:
